@@ -38,18 +38,19 @@ def run(tier, seed):
     # ---- 1. TLC decides the reference decoder (bounded, explicit bytes, every segmentation)
     dec_fams = [
         # fragmentation / control / reserved / oversize(3 > lim) interplay, pairs
-        F(n=2, lim=2, ops=(0, 1, 2, 8, 9, 3), masks=(1,), lens=((7, 0), (7, 2), (7, 3))),
+        F(n=2, lim=2, ops=(0, 1, 2, 8, 9, 3), masks=(1,), lens=((7, 0), (7, 2)) if q else ((7, 0), (7, 2), (7, 3))),
+        F(n=2, lim=2, ops=(0, 1, 9), masks=(1,), lens=((7, 1), (7, 3))),
         # RSV bits, unmasked frames
         F(n=2, lim=2, fins=(1,), rsvs=(0, 4), ops=(1, 9, 8), masks=(0, 1), lens=((7, 0), (7, 2))),
         # every length form incl. non-minimal, > 125 control, upper length bytes
         F(n=1, lim=130, fins=(1,), ops=(1, 9), masks=(0, 1), lens=((7, 1), (16, 126), (16, 2), (64, 3), (64, 131), (16, 131)), his=(0, 1, 2)),
     ]
     if not q:
-        dec_fams += [F(n=2, lim=2, rsvs=(0, 4), ops=(0, 1, 2, 8, 9, 10, 3, 11), masks=(0, 1), lens=((7, 0), (7, 2), (7, 3), (16, 1)))]
-    ws.model_check_decoder(chk, "C31_dec", ws.consts(dec_fams, Mode="dec", Pols={1, 8} if q else {1, 2, 3, 5, 8}),
+        dec_fams += [F(n=2, lim=2, rsvs=(0, 4), ops=(0, 1, 2, 8, 9, 10, 3, 11), masks=(1,), lens=((7, 0), (7, 2)))]
+    ws.model_check_decoder(chk, "C31_dec", ws.consts(dec_fams, Mode="dec", Pols={1, 8} if q else {1, 2, 3, 5}),
                            workers=8 if q else None)
     if not q:
-        ws.model_check_decoder(chk, "C31_dec3", ws.consts([F(n=3, lim=2, ops=(0, 1, 2, 8, 9, 3), masks=(1,), lens=((7, 0), (7, 2), (7, 3)))],
+        ws.model_check_decoder(chk, "C31_dec3", ws.consts([F(n=3, lim=2, ops=(0, 1, 2, 8, 9), masks=(1,), lens=((7, 0), (7, 2)))],
                                                           Mode="dec", Pols={1, 8}))
 
     # ---- 2. generated frame sequences, replayed on the real server
@@ -64,15 +65,15 @@ def run(tier, seed):
         # pairs: interleaving, fragments + control frames, things after a terminating frame
         dict(name="pair", f=F(n=2, ops=(0, 1, 2, 8, 9, 10, 3), masks=(1,) if q else (0, 1), lens=SMALL), singles=4 if q else 10, multis=2),
         dict(name="pairlen", f=F(n=2, ops=(1, 2, 9), fins=(1,), masks=(0, 1), lens=((7, 1), (7, 125), (16, 126), (64, 65536)) if q else ALL_LENS),
-             singles=4 if q else 8, multis=1),
+             singles=4, multis=1),
         # longer sequences over a small alphabet
-        dict(name="quad", f=F(n=4, ops=(1, 2, 9, 8) if q else (0, 1, 2, 9, 8), fins=(1,) if q else (0, 1), masks=(1,), lens=((7, 3),)),
-             singles=4, multis=2),
+        dict(name="quad", f=F(n=4, ops=(1, 2, 9, 8) if q else (0, 1, 2, 9), fins=(1,) if q else (0, 1), masks=(1,), lens=((7, 3),)),
+             singles=4 if q else 3, multis=2 if q else 1),
     ]
     if not q:
         plans += [
-            dict(name="trip", f=F(n=3, ops=(0, 1, 2, 8, 9, 3), masks=(1,), lens=((7, 0), (7, 5))), singles=3, multis=1),
-            dict(name="pairrsv", f=F(n=2, ops=(1, 2, 8, 9), rsvs=(0, 4, 7), masks=(1,), lens=((7, 1), (16, 126), (16, 5))), singles=4, multis=1),
+            dict(name="trip", f=F(n=3, ops=(0, 1, 2, 8, 9, 3), masks=(1,), lens=((7, 2),)), singles=4, multis=2),
+            dict(name="pairrsv", f=F(n=2, ops=(1, 2, 8, 9), rsvs=(0, 4), masks=(1,), lens=((7, 1), (16, 126), (16, 5))), singles=3, multis=1),
         ]
     nplan = len(plans)
     canon_fams = [F(n=len(fixed), fixed=fixed) for (_k, _w, fixed, _wo) in CANON]
@@ -121,10 +122,10 @@ def run(tier, seed):
                        seg_filter=(lambda lab: lab == "whole") if is_open else None)
 
     chk.cov["rule"] = ("TLC: byte-level incremental RFC 6455 decoder over explicit wire bytes, all sequences of <=2 (thorough: 3) frames "
-                       "over a small alphabet, every chunking (FeedChunk(k), all k), policies lenient/strict: SegmentationIndependent, "
+                       "over a small alphabet, every chunking into pieces of 1..64 bytes (FeedChunk(k) at every position) compared with the one-piece feed, policies lenient/strict: SegmentationIndependent, "
                        "MatchesTokenDecoder, NoPartialDelivery, NothingAfterClose, HdrOK. Replay: TLC-generated frame sequences (all "
                        "opcodes, FIN, RSV, masked/unmasked, 7/16/64-bit forms, lengths 0/1/125/126/65535/65536/limit/limit+1, upper "
-                       "length bytes set, pairs/triples exhaustively, longer by simulation) are written by a raw TCP client to a real "
+                       "length bytes set, pairs exhaustively, triples/quadruples over small alphabets, 6 frames by TLC simulation in the thorough tier) are written by a raw TCP client to a real "
                        "evhttp+evws server whole, byte-wise, with every single cut (sampled for long streams: all header positions, "
                        "frame ends, 4096/16384 offsets) and seeded multi-cuts; message callbacks (type, length, crc32), close callback, "
                        "client EOF and bytes written back are compared with the reference. distinct = distinct (sequence, cuts).")
